@@ -334,9 +334,23 @@ class Processor:
                         ).format(type(parent)), str(yaml_path))
                 return
 
+        change_parent = node_coord.parent
+        change_ref = node_coord.parentref
+        if (isinstance(node_coord.node, (CommentedSet, set))
+            and node_coord.path is not None
+            and len(node_coord.path) == len(yaml_path) - 1
+            and yaml_path.escaped[-1][0] is PathSegmentTypes.KEY
+            and yaml_path.escaped[-1][1] in node_coord.node
+        ):
+            # A missing Set member was just created; the optional search
+            # relays the Set itself, so aim the change at the new member
+            # rather than replacing the entire Set.
+            change_parent = node_coord.node
+            change_ref = yaml_path.escaped[-1][1]
+
         try:
             self._update_node(
-                node_coord.parent, node_coord.parentref, value,
+                change_parent, change_ref, value,
                 value_format, tag)
         except ValueError as vex:
             raise TypeMismatchYAMLPathException(
